@@ -310,10 +310,16 @@ pub fn gen_session(seed: u64, run: u64, thorough: bool) -> Session {
                         ops.push(PlannedOp::tagged(Op::Cancel { id }, "cancelRequest.unknown_or_answered_id"));
                     }
                     2 => {
-                        ops.push(PlannedOp::tagged(
-                            Op::Raw { msg: json!({"jsonrpc":"2.0","method":"$/glasSimUnknown","params":{"x":1}}) },
-                            "notification.unknown_dollar_method",
-                        ));
+                        if rng.chance(1, 2) {
+                            // a change notification that carries no change at all
+                            ops.push(PlannedOp::tagged(Op::Change { uri: uri.clone(), edits: vec![] }, "didChange.no_content_changes"));
+                            ops.push(PlannedOp::new(Op::ProbeText { uri: uri.clone() }));
+                        } else {
+                            ops.push(PlannedOp::tagged(
+                                Op::Raw { msg: json!({"jsonrpc":"2.0","method":"$/glasSimUnknown","params":{"x":1}}) },
+                                "notification.unknown_dollar_method",
+                            ));
+                        }
                     }
                     3 => {
                         let method = *rng.pick(REQ_METHODS);
@@ -629,6 +635,9 @@ fn op_kinds_inner(op: &Op, states: &BTreeMap<String, BTreeSet<Option<String>>>) 
         }
         Op::Change { uri, edits } => {
             let mut v = Vec::new();
+            if edits.is_empty() {
+                v.push("didChange.no_content_changes".to_string());
+            }
             let mut cur: Option<Option<String>> = known(uri);
             if classify_uri(uri) != "file" {
                 v.push(format!("didChange.uri_{}", classify_uri(uri)));
